@@ -516,3 +516,28 @@ def hexs(b):
 def ret_bytes_n(proto, rets):
     nfp = sum(1 for t in proto['res'] if t == 'ld')
     return ret_bytes(rets) + nfp.to_bytes(4, 'little') + bytes(12)
+
+
+def run_harness(vlib, impl, lines, env=None, timeout=1800):
+    """run the probe harness; rows by case id.  A harness that cannot start is a build error, and a
+    case that crashed / timed out is re-run once on its own (load spikes must not look like findings)."""
+    rc, out, err = vlib.run_lines(impl, lines, timeout=timeout, env=env)
+    rows = {}
+    for l in out:
+        if l.strip():
+            r = parse_impl(l)
+            rows.setdefault(r['id'], r)
+    if lines and not rows:
+        raise vlib.BuildError('probe harness produced no output (rc=%d): %s' % (rc, err[-500:]))
+    for l in lines:
+        cid = l.split(' ', 1)[0]
+        r = rows.get(cid)
+        if r is None or r['status'] in ('crash', 'missing'):
+            rc1, out1, err1 = vlib.run_lines(impl, [l], timeout=300, env=env)
+            for x in out1:
+                if x.strip():
+                    r1 = parse_impl(x)
+                    if r1['id'] == cid:
+                        rows[cid] = r1
+                        break
+    return rows, err
